@@ -616,3 +616,142 @@ Definition sd_proj : project := mkProject [] [ex_tag (zs "d") 7 211 []].
 Definition sd_mem : Project.mem := [(7, [8; 0; 0; 0])].
 Example out_scalar_dword : wf_project sd_proj = true /\ dword_arrays sd_proj = false /\ outside sd_proj sd_mem ex_cfg (zs "d[3]") = true.
 Proof. vm_compute. repeat split; reflexivity. Qed.
+
+(* ================================================================ EXTENSION 1: the reference grammar inverted (Proofs/ReadResolve3.v).
+   [ref_core] follows Expect.parse_request keeping the text of the decimal fields.  Proved for EVERY string:
+   a string the reference reads has a core with the reference's AST, and the string is that core rendered as
+   [Program:P.]tag[i..].member[j..]...[.bit][{n}] — no hypothesis on the characters of the names, the number of
+   segments, leading zeros, ....  So in C01_resolution_strings the string-level condition of [plain_request]
+   ("rendering the pieces back gives the string itself") is gone: what is left, [sem_ok p s], is only about the
+   PROJECT — the tag is visible and found under its exact spelling, members spelled as the templates spell them
+   (out_case), decimal fields of <= 4300 digits (out_digits), names ASCII, 1..255 characters, without . [ ] { }
+   (out_long_name; '}' can occur in a name the reference reads: "a}b{3}"), no member segment made of digits,
+   index values < 2^32 and dimensions <= 2^32, BOOL / BOOL-array shapes (out_scalar_dword under [dword_arrays]),
+   a single controller-scope segment without ':' — i.e. exactly [ReadStrings.item_okb].
+   STILL SEPARATING THIS FROM [resolution_sound]: that [exists_in] + the negation of the out_* classes imply [sem_ok]
+   (each conjunct of item_okb from existence) is not proved. *)
+From PV Require Import Proofs.ReadResolve3 Proofs.ReadInstance.
+
+Definition C01_resolution_grammar : Prop :=
+  forall s r, parse_request s = Some r ->
+    exists c, ref_core s = Some c /\ core_ast c = r /\ core_text c = s /\ core_vals c.
+
+Theorem C01_resolution_grammar_holds : C01_resolution_grammar.
+Proof.
+  intros s r H. destruct (ref_core_complete s r H) as (c & Ec & Ea). destruct (ref_core_render s c Ec) as [Et Hv].
+  exists c. repeat split; assumption.
+Qed.
+Print Assumptions C01_resolution_grammar_holds.
+
+(* [resolution_sound] restricted by [sem_ok] only *)
+Definition C01_resolution_sem : Prop :=
+  forall p mem cfg fuel s r, wf_project p = true -> wf_mem p mem = true -> layout_ok p = true ->
+    upload_ok p = true -> dword_arrays p = true -> sem_ok p s = true ->
+    exists_in p mem cfg fuel s r -> C01_guard p s = false -> request_ok p mem cfg fuel s r.
+
+Theorem C01_resolution_sem_holds : C01_resolution_sem.
+Proof.
+  intros p mem cfg fuel s r Hwf Hwm Hlay Hup Hda Hs (Hpr & Href & q & path & Hparse & Hrp & T1 & T2 & T3 & T4) Hgs.
+  assert (Hn16 : pq_elements q < 65536) by (unfold C01_guard in Hgs; rewrite Hparse in Hgs; apply Z.leb_gt; exact Hgs).
+  apply (resolution_sem p mem cfg fuel s r Hwf Hwm Hlay Hup Hda Hs Hpr Href).
+  exists q, path. split; [exact Hparse|]. split; [exact Hrp|]. repeat split; assumption.
+Qed.
+Print Assumptions C01_resolution_sem_holds.
+
+Definition C01_resolution_strings : Prop :=
+  forall p mem pol basic cfg fuel st ms reqs asts,
+    wf_project p = true -> wf_mem p mem = true -> layout_ok p = true -> upload_ok p = true -> dword_arrays p = true ->
+    0 < po_bool_true pol < 256 ->
+    quiet (mkLState p mem pol basic) ms st -> (c_micro800 cfg = false -> ms = true) -> c_conn cfg < 65536 ->
+    Forall (fun s => sem_ok p s = true) reqs ->
+    Forall2 (exists_in p mem cfg fuel) reqs asts -> Forall (fun s => C01_guard p s = false) reqs ->
+    C01_conclusion p mem cfg fuel st reqs asts.
+
+Theorem C01_resolution_strings_hold : C01_resolution_strings.
+Proof.
+  intros p mem pol basic cfg fuel st ms reqs asts Hwf Hwm Hlay Hup Hda Hbt Hq Hms Hconn Hsem HF Hg.
+  apply (C01_partial_holds p mem pol basic cfg fuel st ms reqs asts Hlay Hbt (wf_mem_bytes_ok p mem Hwm) Hq Hms Hconn).
+  induction HF as [|s r reqs asts H _ IH]; [constructor|].
+  inversion Hsem as [|? ? Hs Hsem']; subst. inversion Hg as [|? ? Hgs Hg']; subst.
+  constructor; [|apply IH; assumption].
+  exact (C01_resolution_sem_holds p mem cfg fuel s r Hwf Hwm Hlay Hup Hda Hs H Hgs).
+Qed.
+Print Assumptions C01_resolution_strings_hold.
+
+(* non-vacuity: member paths with indexes at two levels, a bit and a count, leading zeros, a program-scoped
+   tag with a bit, tag[i,j,k]-style single segments, tag{n} — all inside [sem_ok]; and one core spelled out *)
+Definition rs_reqs : list text :=
+  [zs "mix[1].Vals[0].31{1}"; zs "mix[0].Vals[01]"; zs "mix[1].Count.03"; zs "Program:Main.v.3"; zs "mix{2}"; zs "mix[0].Vals{2}"].
+Example C01_resolution_nonvacuous :
+  forallb (sem_ok px_proj) (rs_reqs ++ map item_text px_items) = true
+  /\ forallb (sem_ok ex_proj) (ex_reqs ++ [zs "a[1]{3}"; zs "b[3]{40}"; zs "x.0"]) = true
+  /\ ref_core (zs "mix[1].Vals[00].31{1}")
+     = Some (None, (zs "mix", [zs "1"], [1]), [(zs "Vals", [zs "00"], [0])], Some (zs "31", 31), Some (zs "1", 1))
+  /\ forallb (fun s => match parse_request s with Some _ => true | None => false end) rs_reqs = true.
+Proof.
+  split; [vm_compute; reflexivity|]. split; [vm_compute; reflexivity|]. split; [vm_compute; reflexivity|]. vm_compute; reflexivity.
+Qed.
+
+(* ================================================================ EXTENSION 2: symbol-instance addressing and member paths
+   (Proofs/ReadInstance.v).
+   (1) reference target: the class 0x6B / instance pair stands for the tag with that symbol instance WHATEVER
+       follows (element indexes, member names at any depth), in every scope (also after a Program:P segment),
+       for every project whose instance ids and names are distinct (wf_project);
+   (2) the same at the byte level for controller-scope tags: inst_seg_bytes ++ R and sym_seg_bytes name ++ R
+       resolve alike, R = element segments then member parts;
+   (3) the driver (packets/util.tag_request_path) opens with the instance pair exactly when [by_instance]:
+       use_instance_ids and the request's tag info has a non-zero instance id and the first dotted part does
+       not start with "Program:"; otherwise the path is the symbolic one;
+   (4) THE EXCLUSIONS THE CODE MAKES: for every request with a member path, and every Program: scoped request,
+       [by_instance] is false — _get_tag_info returns the member's entry of the data-type dict, which carries no
+       instance id — so member requests are always addressed symbolically, use_instance_ids or not, and are
+       covered by C01_paths for both settings.  The instance form is emitted only for single-segment
+       controller-scope requests (C01_single_segment / ReadResolve1.path_single). *)
+Definition C01_instance_paths : Prop :=
+  (forall p g listing rest, wf_project p = true -> In g (p_tags p) -> (listing = false \/ rest <> []) ->
+     resolve_in_scope p listing (g_scope g) (inst_psegs (g_inst g) ++ rest)
+     = resolve_in_scope p listing (g_scope g) (PSym (g_name g) :: rest))
+  /\ (forall p g idv more, wf_project p = true -> In g (p_tags p) -> g_scope g = ScCtrl ->
+        starts_with txt_Program_ (g_name g) = false -> Path.len (g_name g) < 256 -> idx32 idv -> Forall ppart_ok more ->
+        resolve_path p false (inst_seg_bytes (g_inst g) ++ rest_bytes idv more)
+        = resolve_path p false (sym_seg_bytes (g_name g) ++ rest_bytes idv more))
+  /\ (forall use q, by_instance use q = false -> read_path use q = read_path false q)
+  /\ (forall p mem cfg fuel x,
+        wf_project p = true -> wf_mem p mem = true -> layout_ok p = true -> upload_ok p = true -> dword_arrays p = true ->
+        greq_ok p mem cfg fuel x ->
+        exists q, parse_tag_request (client_tags p) (gq_text x) = Ok q
+          /\ (gq_more x <> [] -> ti_inst (pq_info q) = None)
+          /\ by_instance (c_use_ids cfg) q = false
+          /\ read_path (c_use_ids cfg) q = read_path false q).
+
+Theorem C01_instance_paths_hold : C01_instance_paths.
+Proof.
+  split; [exact instance_in_scope|].
+  split; [intros p g idv more H1 H2 H3 H4 H5 H6 H7; exact (proj2 (proj2 (instance_path_resolves p g idv more H1 H2 H3 H4 H5 H6 H7)))|].
+  split; [exact read_path_symbolic|exact greq_ok_symbolic].
+Qed.
+Print Assumptions C01_instance_paths_hold.
+
+(* non-vacuity on px_proj: `mix` has symbol instance 9.  The instance pair followed by [1] and .Count reaches
+   the same INT as the symbolic path; with use_instance_ids the driver still builds the symbolic path for
+   "mix[1].Count" (and the instance path for "mix[1]") *)
+Definition ip_member : ppart := (zs "Count", [], []).
+Definition same_place (a b : target) : bool :=
+  match a, b with
+  | TgTag l1, TgTag l2 => (w_inst l1 =? 9) && (w_inst l2 =? 9) && (w_off l1 =? 14) && (w_off l2 =? 14)
+  | _, _ => false
+  end.
+Definition ip_driver (s : text) (inst_form : bool) (expect : bytes) : bool :=
+  match parse_tag_request (client_tags px_proj) s with
+  | Ok q => Bool.eqb (by_instance true q) inst_form
+            && match read_path true q with Ok b => text_eqb b expect | Err _ => false end
+  | Err _ => false
+  end.
+Example C01_instance_nonvacuous :
+  same_place (resolve_path px_proj false (inst_seg_bytes 9 ++ rest_bytes [1] [ip_member]))
+             (resolve_path px_proj false (sym_seg_bytes (zs "mix") ++ rest_bytes [1] [ip_member])) = true
+  /\ ip_driver (zs "mix[1].Count") false (8 :: sym_seg_bytes (zs "mix") ++ rest_bytes [1] [ip_member]) = true
+  /\ ip_driver (zs "mix[1]") true (3 :: inst_seg_bytes 9 ++ rest_bytes [1] []) = true.
+Proof.
+  split; [vm_compute; reflexivity|]. split; vm_compute; reflexivity.
+Qed.
